@@ -103,6 +103,8 @@ def e1_check(ctx, res, profile, n_quick, n_thorough, steps, relevant, nontrivial
             res.inconclusive_notes.append("seed %s: %s" % (r["seed"], r["inconclusive"][:200]))
     for r in results[:3]:
         pass
+    if profile.get("generic", True):
+        run_generic(ctx, res, skip=profile.get("generic_skip", ()))
     res.extra.update({
         "episodes": tot["episodes"],
         "wire_deliveries_checked": tot["deliveries"],
@@ -355,3 +357,30 @@ def run_rank_matrix(ctx, res, props):
     for v in viol:
         if set(v["props"]) & set(props):
             res.findings.append(Finding("ranks:" + v["signature"], v["detail"], {"engine": "e1-scenario", "scenario": scen}))
+
+
+_GENERIC_DONE = set()
+
+
+def run_generic(ctx, res, skip=()):
+    """every deterministic scenario of this module, judged for the calling property only (a few seconds altogether):
+    chunk-size scenario, rank matrix, case twins, prefix twins.  What each was written for is noted at its definition;
+    run everywhere, a change behind one property that only a sibling's scenario happens to reach is still reported by
+    the property it belongs to."""
+    binary, hooks = ctx.binary()
+    for name, scen in (("big", big_scenario), ("ranks", rank_matrix_scenario), ("twins", case_twin_scenario),
+                       ("prefixtwins", prefix_twin_scenario)):
+        if name in skip or (ctx.prop, name) in _GENERIC_DONE:
+            continue
+        _GENERIC_DONE.add((ctx.prop, name))
+        sc = scen()
+        viol, note = run_scenario(binary, hooks, sc)
+        res.evaluations += len(sc["actions"])
+        res.distinct.add("scenario:" + name)
+        if note:
+            res.inconclusive += 1
+            res.inconclusive_notes.append("%s scenario: %s" % (name, note))
+        for v in viol:
+            if ctx.prop in v["props"]:
+                res.findings.append(Finding("%s:%s" % (name, v["signature"]), v["detail"][:600],
+                                            {"engine": "e1-scenario", "scenario": sc}))
